@@ -3,6 +3,7 @@ CONSTANTS
   Reqs <- Reqs2
   Parts <- P11
   RegAfter <- RegFirst
+  KeyOf <- IdKey
   Dups = {}
   LookupAtomic = FALSE
   FailIdx = {}
